@@ -44,6 +44,9 @@ type cell struct {
 	Lt         string   `json:"lt,omitempty"`
 	Rt         string   `json:"rt,omitempty"`
 	Form       string   `json:"form,omitempty"`
+	Linit      string   `json:"linit,omitempty"`
+	Rinit      string   `json:"rinit,omitempty"`
+	Pos        int      `json:"pos,omitempty"`
 	Name       string   `json:"name,omitempty"`
 	Access     string   `json:"access,omitempty"`
 	Get        string   `json:"get,omitempty"`
@@ -96,21 +99,82 @@ var predefinedOf = map[string]string{
 	"TIME": "now", "IP": "server.ip", "HEADER": "req.http.Y", "REQBACKEND": "req.backend",
 }
 
-func operand(rt, form string) (setup []string, text string, ok bool) {
+// the type a value of kind t is initialised from (spec: InitType)
+func initType(t, how string) string {
+	switch {
+	case t == "HEADER":
+		if how == "predefined" {
+			return "HEADER"
+		}
+		return "STRING"
+	case t == "IP" && how == "literal":
+		return "STRING"
+	case t == "BACKEND" && how == "predefined":
+		return "REQBACKEND"
+	}
+	return t
+}
+
+func literalFor(kind string) (string, bool) {
+	if kind == "IP" {
+		return `"192.0.2.9"`, true // an address written as a string literal
+	}
+	l, ok := literal[initType(kind, "literal")]
+	return l, ok
+}
+
+// statements that give `target` (a local of kind `kind`, or a header) its value in the way `how` says
+func initStmts(target, kind, how, tag string) ([]string, bool) {
+	switch how {
+	case "", "none":
+		return nil, true
+	case "literal":
+		l, ok := literalFor(kind)
+		if !ok {
+			return nil, false
+		}
+		return []string{fmt.Sprintf("set %s = %s;", target, l)}, true
+	case "local":
+		t := initType(kind, "local")
+		v := "var.i" + tag
+		out := []string{fmt.Sprintf("declare local %s %s;", v, t)}
+		if l, ok := literalFor(t); ok {
+			out = append(out, fmt.Sprintf("set %s = %s;", v, l))
+		} else if t == "TIME" {
+			out = append(out, fmt.Sprintf("set %s = now;", v))
+		}
+		return append(out, fmt.Sprintf("set %s = %s;", target, v)), true
+	case "predefined":
+		p, ok := predefinedOf[initType(kind, "predefined")]
+		if !ok {
+			return nil, false
+		}
+		return []string{fmt.Sprintf("set %s = %s;", target, p)}, true
+	}
+	return nil, false
+}
+
+func operand(rt, form, rinit string) (setup []string, text string, ok bool) {
 	switch form {
 	case "literal":
 		t, ok := literal[rt]
 		return nil, t, ok
 	case "local":
-		init, ok := localInit[rt]
-		if !ok {
+		if _, ok := localInit[rt]; !ok {
 			return nil, "", false
 		}
 		setup = append(setup, fmt.Sprintf("declare local var.r %s;", rt))
-		if init != "" {
-			setup = append(setup, fmt.Sprintf("set var.r = %s;", init))
+		if rinit == "" {
+			rinit = "literal"
+			if rt == "TIME" || rt == "ACL" {
+				rinit = "local"
+			}
 		}
-		return setup, "var.r", true
+		init, ok := initStmts("var.r", rt, rinit, "r")
+		if !ok {
+			return nil, "", false
+		}
+		return append(setup, init...), "var.r", true
 	case "predefined":
 		t, ok := predefinedOf[rt]
 		return nil, t, ok
@@ -118,11 +182,15 @@ func operand(rt, form string) (setup []string, text string, ok bool) {
 	return nil, "", false
 }
 
-func leftOf(lt string) (setup []string, text string) {
+func leftOf(lt, linit string) (setup []string, text string, ok bool) {
+	target := "var.l"
 	if lt == "HEADER" {
-		return nil, "req.http.L"
+		target = "req.http.L"
+	} else {
+		setup = append(setup, fmt.Sprintf("declare local var.l %s;", lt))
 	}
-	return []string{fmt.Sprintf("declare local var.l %s;", lt)}, "var.l"
+	init, ok := initStmts(target, lt, linit, "l")
+	return append(setup, init...), target, ok
 }
 
 // the name of a table row with its placeholder filled in
@@ -257,9 +325,9 @@ func render(c *cell) program {
 	var body []string
 	switch c.Kind {
 	case "assign", "compare":
-		ls, l := leftOf(c.Lt)
-		rs, r, ok := operand(c.Rt, c.Form)
-		if !ok {
+		ls, l, lok := leftOf(c.Lt, c.Linit)
+		rs, r, ok := operand(c.Rt, c.Form, c.Rinit)
+		if !ok || !lok {
 			return program{Why: "no instance of " + c.Rt + "/" + c.Form}
 		}
 		if c.Lt == "IP" && c.Rt == "STRING" && c.Form == "literal" {
@@ -304,9 +372,19 @@ func render(c *cell) program {
 		case "unset":
 			body = append(body, fmt.Sprintf("unset %s;", n))
 		}
-	case "fn", "fnsig":
+	case "fn", "fnsig", "fnconv":
 		var args []string
 		for i, t := range c.Sig {
+			if c.Kind == "fnconv" && i+1 == c.Pos {
+				// a value of another type where a STRING is declared
+				setup, a, ok := operand(c.Rt, c.Form, "")
+				if !ok {
+					return program{Why: "no instance of " + c.Rt + "/" + c.Form}
+				}
+				body = append(body, setup...)
+				args = append(args, a)
+				continue
+			}
 			a, ok := argOf(t, c.Name, i+1)
 			if !ok {
 				return program{Why: "no argument instance of type " + t}
@@ -495,13 +573,15 @@ type observed struct {
 func cellID(c *cell) string {
 	switch c.Kind {
 	case "assign", "compare":
-		return fmt.Sprintf("%s:%s %s %s/%s", c.Kind, c.Lt, c.Op, c.Rt, c.Form)
+		return fmt.Sprintf("%s:%s[%s] %s %s/%s[%s]", c.Kind, c.Lt, c.Linit, c.Op, c.Rt, c.Form, c.Rinit)
 	case "var":
 		return fmt.Sprintf("var:%s/%s@%s", c.Name, c.Access, strings.Join(c.Scopes, "+"))
 	case "fn":
 		return fmt.Sprintf("fn:%s(%s)@%s", c.Name, strings.Join(c.Sig, ","), strings.Join(c.Scopes, "+"))
 	case "fnsig":
 		return fmt.Sprintf("fnsig:%s:%s(%s)@%s", c.Why, c.Name, strings.Join(c.Sig, ","), strings.Join(c.Scopes, "+"))
+	case "fnconv":
+		return fmt.Sprintf("fnconv:%s(%s)#%d<-%s/%s@%s", c.Name, strings.Join(c.Sig, ","), c.Pos, c.Rt, c.Form, strings.Join(c.Scopes, "+"))
 	case "stmt":
 		return fmt.Sprintf("stmt:%s%s@%s", c.Stmt, map[bool]string{true: "(" + c.Action + ")", false: ""}[c.Action != ""], strings.Join(c.Scopes, "+"))
 	}
@@ -512,13 +592,15 @@ func classOf(c *cell) map[string]any {
 	m := map[string]any{"kind": c.Kind, "nscopes": len(c.Scopes)}
 	switch c.Kind {
 	case "assign", "compare":
-		m["op"], m["lt"], m["rt"], m["form"] = c.Op, c.Lt, c.Rt, c.Form
+		m["op"], m["lt"], m["rt"], m["form"], m["linit"], m["rinit"] = c.Op, c.Lt, c.Rt, c.Form, c.Linit, c.Rinit
 	case "var":
 		m["name"], m["access"] = c.Name, c.Access
 	case "fn":
 		m["name"] = c.Name
 	case "fnsig":
 		m["name"], m["why"] = c.Name, c.Why
+	case "fnconv":
+		m["name"], m["rt"], m["form"] = c.Name, c.Rt, c.Form
 	case "stmt":
 		m["stmt"] = c.Stmt
 		if c.Action != "" {
